@@ -26,6 +26,7 @@ def family():
     yield from F.fam_clone_guards()
     yield from F.fam_clone_shapes()
     yield from F.fam_clone_doer_state()
+    yield from F.fam_clones_rear_nested()
 
 
 def rel_paths(prog):
